@@ -389,6 +389,21 @@ pub fn gen_random(seed: u64, idx: u64) -> Plan {
         }
     }
     let mut accept_errs = Vec::new();
+    if r.chance(1, 8) {
+        // Connections that are reset while they wait in the listen queue: the
+        // accept loop is in its 100 ms back-off after an EMFILE-like error
+        // when they arrive and go.
+        let at = r.range(0, span);
+        accept_errs.push(AcceptErrPlan { at_ms: at, kind: "emfile".into() });
+        for i in 0..r.usize_in(1, 3) {
+            let mut c = blank_conn(13_000 + i as u16);
+            c.start_ms = at + r.range(5, 60);
+            c.steps.push(Step::Reset);
+            c.reqs.push(hostile("reset_in_backlog", false, nonce));
+            nonce += 1;
+            conns.push(c);
+        }
+    }
     if r.chance(1, 3) {
         for _ in 0..r.range(1, 6) {
             accept_errs.push(AcceptErrPlan {
@@ -452,6 +467,7 @@ impl Scenario for C18 {
             "truncation_sweep_point",
             "tls_healthy_client_checked",
             "tls_hostile_handshake",
+            "reset_in_backlog_accepted",
         ]
     }
 
@@ -531,6 +547,9 @@ pub fn check_c18(plan: &Plan, out: &Outcome, probes: &mut Vec<&'static str>) -> 
     check_health("c18", plan, out, &mut v);
     if plan.final_health {
         probes.push("health_after_faults");
+    }
+    if out.events.iter().any(|e| e.kind == Ev::Accepted && e.a == 1) {
+        probes.push("reset_in_backlog_accepted");
     }
     if out.events.iter().any(|e| e.kind == Ev::AcceptErr && e.a == std::io::ErrorKind::Other as u64) {
         probes.push("accept_backoff_taken");
